@@ -155,6 +155,36 @@ def monitor(ctx, extended=False):
                 ctx.violation(f'LDV(vls={v!r}) differs from LDV(vls=1.0)', {'args': list(a), 'vls': repr(v)}, key='dummy')
         except Exception as e:   # noqa
             ctx.violation(f'LDV(vls={v!r}) raised {type(e).__name__}: {e}', {'args': list(a), 'vls': repr(v)}, key='dummy')
+    # the limit deposit velocities a slurry object tabulates (LDV_curves for its D50, LDV85_curves for its D85) are the same quantity: positive, finite and within
+    # 0.1 % of the converged solution wherever (grain, concentration) lies in E - small pipes with fine grains and lean mixtures converge slowest
+    import envelope as E_
+    objs = [dict(Dp=0.1, fluid='fresh', rhos=2.65, Cv=0.05, D50=8e-5, r15=1.5, r85=2.0), dict(Dp=0.15, fluid='salt', rhos=2.0, Cv=0.1, D50=1.2e-4, r15=2.0, r85=2.72)] + \
+           [E_.slurry_params(ctx.rng) for _ in range(ctx.n(4, 120))]
+    for pp in objs:
+        ctx.count('evaluations')
+        try:
+            nu_, rhol_ = E_.fluids()[pp['fluid']]
+            lo_ = max(E_.dlim(pp['Dp'], nu_, rhol_, pp['rhos']), 5e-5)
+            if pp['D50'] < lo_ * 1.0001:
+                pp['D50'] = lo_ * 1.05
+            so = E_.make_slurry(pp, max_index=10)
+            for cname, frac in (('LDV_curves', 0.5), ('LDV85_curves', 0.85)):
+                d_ = so.get_dx(frac)
+                cur = getattr(so, cname)
+                if not (lo_ <= d_ <= 0.25 * pp['Dp']):
+                    continue
+                for cv_, v_ in list(zip(cur['Cv'], cur['vls']))[1:45:4]:
+                    if not 0.02 <= cv_ <= 0.45:
+                        continue
+                    conv, which = converged_LDV(pp['Dp'], d_, so.epsilon, so.nu, so.rhol, so.rhos, cv_)
+                    err = abs(v_ - conv) / conv
+                    worst = max(worst, err)
+                    if not (is_real_finite(v_) and v_ > 0 and err < 1e-3):
+                        ctx.violation(f"slurry object {cname}: limit deposit velocity {v_!r} at Cvs={cv_} for the {d_ * 1000:.4f} mm grain is {err:.3%} off the converged solution {conv!r} ({which})",
+                                      {'slurry': pp, 'curve': cname, 'Cvs': cv_}, key='converged')
+                        break
+        except Exception as e:   # noqa
+            ctx.violation(f'slurry object LDV curves raised {type(e).__name__}: {e}', {'slurry': pp}, key='raised')
     ctx.stats['worst_relative_distance_to_converged'] = worst
     ctx.stats['governing_limit_classes'] = sorted(classes)
     ctx.stats['distinct_nontrivial'] = len(classes)
